@@ -228,6 +228,14 @@ def run(ctx, rep):
     # the same holds for the cost pre-pass: within a date all capital returns / accumulations are applied before that date's
     # purchases join the tracked lots; walked line by line, a purchase written above the event line would absorb part of the
     # adjustment and one written below it would not (shared with C11-R3; seeded change C06-s3)
+    # a reservation (or any quantity map) shared by all securities must be keyed per security: keyed by the date alone, the first
+    # security whose look-ahead reaches a date decides for all — and which one is first depends on line order (shared with C09-R1)
+    import rules.c09 as c09
+    r4 = Report("tmp")
+    c09.keyed_access(R, r4)
+    for o in r4.obligations:
+        if o["instance"].startswith("shared-map-key:"):
+            rep.ob("R5", o["instance"], o["ok"], o["detail"], o["site"], key="R5:" + o["instance"])
     import rules.c11 as c11
     r3 = Report("tmp")
     appo = c11.adjustments(R, r3)
